@@ -8,6 +8,38 @@ Sorts usable as set elements / dict keys must be "flat" (eq is z3 `=`).
 import z3
 
 
+_CONCATS = {}  # term id of a concatenation -> (a, b)
+_PENDING_FACTS = []  # definitional facts of freshly named arrays, drained by the executor
+
+
+def forall_pat(vs, body, pats):
+  """ForAll with each usable candidate pattern as an alternative trigger."""
+  good = []
+  for pt in pats:
+    if not _is_select(pt) or _has_ite(pt):
+      continue
+    try:
+      z3.ForAll(vs, body, patterns=[pt])
+      good.append(pt)
+    except z3.Z3Exception:
+      pass
+  if good:
+    return z3.ForAll(vs, body, patterns=good)
+  return z3.ForAll(vs, body)
+
+
+def _has_ite(t):
+  if z3.is_app(t):
+    if t.decl().kind() == z3.Z3_OP_ITE:
+      return True
+    return any(_has_ite(c) for c in t.children())
+  return z3.is_quantifier(t)
+
+
+def _is_select(t):
+  return z3.is_app(t) and t.decl().kind() == z3.Z3_OP_SELECT
+
+
 _SLICES = {}   # term id of a slice -> (base term, lo, hi) with clamped bounds
 _KEEP = []     # keeps the slice terms alive so that ids stay unique
 
@@ -130,10 +162,12 @@ class Opt(Sort):
     o.inner = inner
     o.name = 'Opt[%s]' % inner.name
     o.flat = inner.flat
-    d = z3.Datatype('Opt_%s' % _mangle(inner.name))
-    d.declare('none')
-    d.declare('some', ('val', inner.z3()))
+    tag = _mangle(inner.name)
+    d = z3.Datatype('Opt_%s' % tag)
+    d.declare('none_' + tag)
+    d.declare('some_' + tag, ('val_' + tag, inner.z3()))
     o._z = d.create()
+    o._tag = tag
     cls._cache[key] = o
     return o
 
@@ -141,16 +175,16 @@ class Opt(Sort):
     return self._z
 
   def none(self):
-    return self._z.none
+    return self._z.constructor(0)()
 
   def some(self, t):
-    return self._z.some(t)
+    return self._z.constructor(1)(t)
 
   def is_none(self, t):
-    return self._z.is_none(t)
+    return self._z.recognizer(0)(t)
 
   def val(self, t):
-    return self._z.val(t)
+    return self._z.accessor(1, 0)(t)
 
   def eq(self, a, b):
     if self.inner.flat:
@@ -178,10 +212,12 @@ class Seq(Sort):
     o = super().__new__(cls)
     o.elem = elem
     o.name = 'Seq[%s]' % elem.name
-    d = z3.Datatype('Seq_%s' % _mangle(elem.name))
-    d.declare('mk', ('arr', z3.ArraySort(z3.IntSort(), elem.z3())),
-              ('len', z3.IntSort()))
+    tag = 'Seq_%s' % _mangle(elem.name)
+    d = z3.Datatype(tag)
+    d.declare('mk_' + tag, ('arr_' + tag, z3.ArraySort(z3.IntSort(), elem.z3())),
+              ('len_' + tag, z3.IntSort()))
     o._z = d.create()
+    o._mk = 'mk_' + tag
     cls._cache[key] = o
     return o
 
@@ -189,13 +225,17 @@ class Seq(Sort):
     return self._z
 
   def arr(self, t):
-    return z3.simplify(self._z.arr(t)) if z3.is_app(t) and t.decl().name() == 'mk' else self._z.arr(t)
+    if z3.is_app(t) and t.decl().name() == self._mk:
+      return t.arg(0)
+    return self._z.accessor(0, 0)(t)
 
   def len(self, t):
-    return z3.simplify(self._z.len(t)) if z3.is_app(t) and t.decl().name() == 'mk' else self._z.len(t)
+    if z3.is_app(t) and t.decl().name() == self._mk:
+      return t.arg(1)
+    return self._z.accessor(0, 1)(t)
 
   def mk(self, arr, n):
-    return self._z.mk(arr, n)
+    return self._z.constructor(0)(arr, n)
 
   def at(self, t, i):
     return select(self.arr(t), i if z3.is_expr(i) else z3.IntVal(i))
@@ -222,6 +262,9 @@ class Seq(Sort):
 
   def contains(self, t, x):
     k = z3.FreshConst(z3.IntSort(), 'k')
+    cc = _CONCATS.get(t.get_id())
+    if cc is not None:
+      return z3.Or(self.contains(cc[0], x), self.contains(cc[1], x))
     info = _SLICES.get(t.get_id())
     if info is not None:
       # x in base[lo:hi]: quantify over the indices of the base sequence (no index
@@ -251,11 +294,24 @@ class Seq(Sort):
     return r
 
   def concat(self, a, b):
+    """a + b as a named array with two pointwise facts (returned for the caller to assume):
+    triggered on the elements of the parts, so that E-matching finds the shifted index."""
     p = z3.FreshConst(z3.IntSort(), 'p')
-    la = self.len(a)
-    arr = z3.Lambda([p], z3.If(p < la, z3.Select(self.arr(a), p),
-                                z3.Select(self.arr(b), p - la)))
-    return self.mk(arr, la + self.len(b))
+    la, lb = self.len(a), self.len(b)
+    arr = z3.FreshConst(z3.ArraySort(z3.IntSort(), self.elem.z3()), 'cat')
+    r = self.mk(arr, la + lb)
+    facts = [
+        forall_pat([p], z3.Implies(z3.And(0 <= p, p < la), z3.Select(arr, p) == self.at(a, p)),
+                   [z3.Select(arr, p), self.at(a, p)]),
+        forall_pat([p], z3.Implies(z3.And(0 <= p, p < lb), z3.Select(arr, p + la) == self.at(b, p)),
+                   [self.at(b, p)]),
+        forall_pat([p], z3.Implies(z3.And(la <= p, p < la + lb), z3.Select(arr, p) == self.at(b, p - la)),
+                   [z3.Select(arr, p)]),
+    ]
+    _CONCATS[r.get_id()] = (a, b)
+    _KEEP.append(r)
+    _PENDING_FACTS.extend(facts)
+    return r
 
 
 class SetOf(Sort):
@@ -320,10 +376,12 @@ class DictOf(Sort):
     o.key = key
     o.val = val
     o.name = 'Dict[%s,%s]' % (key.name, val.name)
-    d = z3.Datatype('Dict_%s_%s' % (_mangle(key.name), _mangle(val.name)))
-    d.declare('mk', ('dom', z3.ArraySort(key.z3(), z3.BoolSort())),
-              ('val', z3.ArraySort(key.z3(), val.z3())))
+    tag = 'Dict_%s_%s' % (_mangle(key.name), _mangle(val.name))
+    d = z3.Datatype(tag)
+    d.declare('mk_' + tag, ('dom_' + tag, z3.ArraySort(key.z3(), z3.BoolSort())),
+              ('val_' + tag, z3.ArraySort(key.z3(), val.z3())))
     o._z = d.create()
+    o._mk = 'mk_' + tag
     cls._cache[k] = o
     return o
 
@@ -331,13 +389,17 @@ class DictOf(Sort):
     return self._z
 
   def dom(self, t):
-    return z3.simplify(self._z.dom(t)) if z3.is_app(t) and t.decl().name() == 'mk' else self._z.dom(t)
+    if z3.is_app(t) and t.decl().name() == self._mk:
+      return t.arg(0)
+    return self._z.accessor(0, 0)(t)
 
   def vals(self, t):
-    return z3.simplify(self._z.val(t)) if z3.is_app(t) and t.decl().name() == 'mk' else self._z.val(t)
+    if z3.is_app(t) and t.decl().name() == self._mk:
+      return t.arg(1)
+    return self._z.accessor(0, 1)(t)
 
   def mk(self, dom, val):
-    return self._z.mk(dom, val)
+    return self._z.constructor(0)(dom, val)
 
   def empty(self):
     return self.mk(z3.K(self.key.z3(), z3.BoolVal(False)),
@@ -406,9 +468,11 @@ class Tup(Sort):
     o = super().__new__(cls)
     o.elems = elems
     o.name = 'Tup[%s]' % ','.join(key)
-    d = z3.Datatype('Tup_' + '_'.join(_mangle(k) for k in key))
-    d.declare('mk', *[('f%d' % i, e.z3()) for i, e in enumerate(elems)])
+    tag = 'Tup_' + '_'.join(_mangle(k) for k in key)
+    d = z3.Datatype(tag)
+    d.declare('mk_' + tag, *[('f%d_%s' % (i, tag), e.z3()) for i, e in enumerate(elems)])
     o._z = d.create()
+    o._mk = 'mk_' + tag
     o.flat = all(e.flat for e in elems)
     cls._cache[key] = o
     return o
@@ -417,10 +481,10 @@ class Tup(Sort):
     return self._z
 
   def make(self, args):
-    return self._z.mk(*args)
+    return self._z.constructor(0)(*args)
 
   def get(self, t, i):
-    if z3.is_app(t) and t.decl().name() == 'mk':
+    if z3.is_app(t) and t.decl().name() == self._mk:
       return t.arg(i)
     return self._z.accessor(0, i)(t)
 
